@@ -5,6 +5,7 @@ import Rsactor.Props.C03
 import Rsactor.Props.C04
 import Rsactor.Props.C05
 import Rsactor.Inv.NetInv
+import Rsactor.Ties.feature_sites_shape
 import Rsactor.Ties.ask_protocol_shape
 import Rsactor.Ties.lifecycle_arms
 
@@ -77,6 +78,7 @@ example : ∃ s, Model.run? (Model.init 2 {})
   refine ⟨_, rfl, ?_, ?_, ?_⟩ <;> decide
 
 /-! ### ties to the source: the lock is released before the deliberate panic and guards tolerate poisoning -/
+-- @tie Rsactor.Ties.feature_sites_shape
 -- @tie Rsactor.Ties.ask_protocol_shape
 -- @tie Rsactor.Ties.lifecycle_arms
 
